@@ -24,7 +24,7 @@ static char vf_logbuf[VF_LOGBUF];
 static size_t vf_loglen = 0;
 static long vf_log_lines = 0;
 static int vf_log_enabled = 1;
-static int vf_in_call = 0;       /* >0 while inside an allocator API call (for crash attribution) */
+static __thread int vf_in_call = 0;   /* >0 while inside an allocator API call (crash attribution; the scheduler only switches inside API calls) */
 
 static void vf_log_flush(void) {
   size_t off = 0;
@@ -149,7 +149,7 @@ static int  vf_os_log = 1;
 static long vf_os_refused = 0;
 static long vf_clock_ms = 1000;       /* virtual clock in milliseconds */
 static int  vf_thp_passthrough = 0;
-static int  vf_cur_thread = 0;
+static __thread int vf_cur_thread = 0;
 
 static int vf_should_fail(int kind) {
   vf_os_count++;
@@ -181,11 +181,13 @@ static void vf_os_event(const char* call, void* addr, size_t len, const char* ar
           vf_cur_thread, call, VF_HI(addr), VF_LO(addr), VF_HI(len), VF_LO(len), arg, ok ? "true" : "false", fixed ? "true" : "false", vf_os_count);
   vf_log_line_end();
 }
+static void (*vf_on_mmap)(void*, size_t) = NULL;     /* optional observer (the scheduler tracks allocator memory) */
 void* vf_mmap(void* addr, size_t len, int prot, int flags, int fd, off_t off) {
   if (vf_should_fail(1)) { vf_os_event("mmap", addr, len, vf_prot_name(prot), 0, (flags & MAP_FIXED) != 0); errno = ENOMEM; return MAP_FAILED; }
   void* p = (void*)syscall(SYS_mmap, addr, len, prot, flags, fd, off);
   if ((long)p < 0 && (long)p > -4096) { errno = (int)(-(long)p); p = MAP_FAILED; }
   vf_os_event("mmap", (p == MAP_FAILED ? addr : p), len, vf_prot_name(prot), p != MAP_FAILED, (flags & MAP_FIXED) != 0);
+  if (p != MAP_FAILED && vf_on_mmap != NULL) vf_on_mmap(p, len);
   return p;
 }
 int vf_munmap(void* addr, size_t len) {
